@@ -212,6 +212,15 @@ def main():
                   break
               if not good:
                 break
+            for star in ('starargs', 'starstarargs'):
+              a_, b_ = getattr(sig, star), getattr(osig, star)
+              if (a_ is None) != (b_ is None):
+                good = False
+              elif a_ is not None:
+                for v in U:
+                  if admits(a_.type, v) is True and admits(b_.type, v) is False:
+                    good = False
+                    break
             if good:
               for v in U:
                 if admits(sig.return_type, v) is True and admits(osig.return_type, v) is False:
@@ -251,6 +260,10 @@ def main():
     check_stub(HDR + 'c: %s\ndef f(x: %s) -> %s: ...\n' % (u, u, u))
     if len(violations) >= 10:
       break
+  for ta, tb in itertools.permutations(['int', 'str', 'Any', 'Tuple[int, ...]'], 2):
+    for form in ('*args: %s', '**kwargs: %s', '*a: %s', 'x: int, *args: %s', '*args: %s, **kw: int'):
+      for form2 in (form, '**kwargs: %s' if form.startswith('*args') else form):
+        check_stub('from typing import overload\n' + HDR + '@overload\ndef f(' + form % ta + ') -> int: ...\n@overload\ndef f(' + form2 % tb + ') -> str: ...\n')
   nrand = 250 if tier == 'quick' else 4000
   for _ in range(nrand):
     if len(violations) >= 10:
@@ -261,7 +274,15 @@ def main():
     for _k in range(nsig):
       same_params = rnd.random() < 0.6
       p = t2 if same_params else gen_types(rnd, 1)
-      src += '%sdef f(x: %s, y: %s = ...) -> %s: ...\n' % ('@overload\n' if nsig > 1 else '', p, t3, gen_types(rnd, 2))
+      stars = ''
+      r_ = rnd.random()
+      if r_ < 0.25:
+        stars = ', *args: %s' % gen_types(rnd, 1)
+      elif r_ < 0.4:
+        stars = ', **kwargs: %s' % gen_types(rnd, 1)
+      elif r_ < 0.5:
+        stars = ', *args: %s, **kwargs: %s' % (gen_types(rnd, 0), gen_types(rnd, 0))
+      src += '%sdef f(x: %s, y: %s = ...%s) -> %s: ...\n' % ('@overload\n' if nsig > 1 else '', p, t3, stars, gen_types(rnd, 2))
     if nsig > 1:
       src = 'from typing import overload\n' + src
     src += 'def g() -> %s: ...\n' % t4
